@@ -122,9 +122,9 @@ CLAIMS["C17"] = {
 }
 CLAIMS["C18"] = {
     "category": "exploration",
-    "technique": "black-box runtime monitoring of the real HTTP service on loopback: strict JSON parsing of every response, echo/round-trip value oracle, reference workspace model over the request history, fault injection with liveness probes",
-    "text": "The real dmntk_server::start_server runs inside the driver on 16 loopback ports. Seeded request histories mix definitions add / replace / remove / clear / deploy, evaluations of constant decisions, and echo decisions through /evaluate (FEEL literals) and /tck/evaluate (typed): 10 string classes (quotes, backslashes, control, non-ASCII, astral, injection), 10 number strata, booleans, nulls, nested lists, contexts with 5 key classes, 5 temporal kinds; faults from 21 malformed-request classes. Every body must parse as strict JSON with a data or errors envelope and decode to the value sent; responses must follow the reference workspace model (replace substitutes the stored model); after every fault workers+4 valid probes on fresh connections must be answered (bounded wait, re-probed; only persistent failure counts). Quick 96 histories x 20-60 requests, thorough 1600 x 20-200.",
-    "note": "Oracle = lib/wsmodel.py plus Python json in strict mode. Cross-pair removes are left to C17; replace with a one-key clash and evaluation after no-op mutations are undecided; responses to raw framing garbage are judged for liveness only. dbg build only.",
+    "technique": "black-box runtime monitoring of the real HTTP service on loopback: strict JSON parsing of every response, echo/round-trip value oracle, reference workspace model over the request history, fault injection with liveness probes; concurrent clients (with a writer) against the dbg build and against the ThreadSanitizer build of the service (Rust std, actix, dmntk, decNumber C instrumented)",
+    "text": "The real dmntk_server::start_server runs inside the driver on 16 loopback ports. Seeded request histories mix definitions add / replace / remove / clear / deploy, evaluations of constant decisions, and echo decisions through /evaluate (FEEL literals) and /tck/evaluate (typed): 11 string classes (quotes, backslashes, control, non-ASCII, astral, injection, escape-needing AND multi-byte in one string), 10 number strata, booleans, nulls, nested lists, contexts with 6 key classes; every third definitions request carries its model in another XML spelling (lib/xmlvar.py), 5 temporal kinds; faults from 21 malformed-request classes. Every body must parse as strict JSON with a data or errors envelope and decode to the value sent; responses must follow the reference workspace model (replace substitutes the stored model); after every fault workers+4 valid probes on fresh connections must be answered (bounded wait, re-probed; only persistent failure counts). Quick 96 histories x 20-60 requests, thorough 1600 x 20-200.",
+    "note": "Oracle = lib/wsmodel.py plus Python json in strict mode. Cross-pair removes are left to C17; replace with a one-key clash and evaluation after no-op mutations are undecided; responses to raw framing garbage are judged for liveness only. dbg build; the concurrent-clients phase also on the tsan build (skipped with a note in the evidence if that variant cannot be built).",
     "design_ref": "DESIGN.md §3 C18",
 }
 
@@ -145,9 +145,9 @@ CLAIMS["C10"] = {
 }
 CLAIMS["C13"] = {
     "category": "exploration",
-    "technique": "runtime invariant monitors next to the observed state (scope snapshot before / after parse and evaluate, around decision-table evaluators, input-context snapshot around evaluate_invocable) + history checker over repeated interleaved evaluations (each compared with the same evaluation made alone on a freshly prepared evaluator)",
-    "text": "Expressions forced through the constructs that push temporary contexts (context literals, filters, for / some / every, invocations, unary tests, paths) are parsed and evaluated 3x in scopes of 1-4 layers while the driver renders the scope before the parse, after it and after every evaluation; successful parses through all six entry points are checked the same way; histories of 200-2000 steps evaluate 8 prepared evaluators over 4 long-lived scopes in random order and compare every observation with the first one of the same pair and the scope with its initial rendering; generated DMN models (boxed contexts, invocations, BKMs, services, tables) have every (invocable, input) pair called 3x interleaved in random order with the input context rendered before and after.",
-    "note": "The scope's Display rendering is taken as a faithful witness of its contents; values depending on the current date are not generated.",
+    "technique": "runtime invariant monitors next to the observed state (scope snapshot before / after parse and evaluate, around decision-table evaluators, input-context snapshot around evaluate_invocable) + history checker over repeated interleaved evaluations (each compared with the same evaluation made alone on a freshly prepared evaluator) + parse histories on one long-lived scope object compared with the same text on a fresh scope object and thread",
+    "text": "Expressions forced through the constructs that push temporary contexts (context literals, filters, for / some / every, invocations, unary tests, paths) are parsed and evaluated 3x in scopes of 1-4 layers while the driver renders the scope before the parse, after it and after every evaluation; successful parses through all six entry points are checked the same way; histories of 200-2000 steps evaluate 8 prepared evaluators over 4 long-lived scopes in random order and compare every observation with the first one of the same pair and the scope with its initial rendering; generated DMN models (boxed contexts, invocations, BKMs, services, tables) have every (invocable, input) pair called 3x interleaved in random order with the input context rendered before and after; parse histories (phase 6): 4-10 texts parsed (half of the introducers of local names parsed only) and evaluated one after the other over ONE long-lived scope object, each compared with the same text over a fresh scope object with the same bindings on a fresh thread.",
+    "note": "The scope's Display rendering is taken as a faithful witness of its contents (what it does not show - a cache inside the scope object - is covered by the parse histories); values depending on the current date are not generated.",
     "design_ref": "DESIGN.md §3 C13",
 }
 
